@@ -162,3 +162,24 @@ func VerifC09_ReceiverHistory() {
 		}
 	}
 }
+
+// C09 (an accepted announcement is delivered): a consumer whose context has
+// already ended asks for the next announcement while an accepted one is queued.
+// Whatever that call returns — the announcement, or the context's error — the
+// announcement is not lost: if the call returned an error, the next call with a
+// live context gets it.
+func VerifC09_CancelledNextLosesNothing() {
+	r, err := NewReceiver(nil, "")
+	verif_Assume(err == nil)
+	verif_Assert(r.Direct(context.Background(), c09cid(1), peer.AddrInfo{ID: "A"}) == nil, "the announcement is accepted")
+	ctx, cancel := context.WithCancel(context.Background())
+	cancel()
+	a, nerr := r.Next(ctx)
+	verif_Reach("first Next returned")
+	if nerr == nil {
+		verif_Assert(a.Cid == c09cid(1) && a.PeerID == "A", "the queued announcement is delivered")
+		return
+	}
+	b, berr := r.Next(context.Background()) // (an announcement that was swallowed is reported as a hang)
+	verif_Assert(berr == nil && b.Cid == c09cid(1) && b.PeerID == "A", "an accepted announcement is delivered to the next consumer that asks")
+}
